@@ -6,6 +6,7 @@ from hypothesis import strategies as st
 from .core import Violation, libcall
 
 TOP = 2 ** 32 - 1
+LAYOUT_CYCLE = ["plain", "strided", "reversed", "plain", "offset", "readonly", "plain"]
 
 
 def universes(m):
@@ -37,7 +38,8 @@ def enum_pairs(m, shard, nshards):
                 for ma in by_pc[ca]:
                     for mb in by_pc[cb]:
                         if i % nshards == shard:
-                            yield {"op": "pair", "a": subs[ma], "b": subs[mb], "u": uname}
+                            yield {"op": "pair", "a": subs[ma], "b": subs[mb], "u": uname,
+                                   "layout": LAYOUT_CYCLE[(i // nshards) % len(LAYOUT_CYCLE)]}
                         i += 1
 
 
@@ -165,7 +167,7 @@ def pair_cases(max_len):
         st.sampled_from(PATTERNS),
         st.sampled_from(["low", "one", "mid", "w16", "high"]),
         st.integers(0, 1000), st.integers(0, 1000),
-        st.sampled_from(["plain", "plain", "strided", "readonly", "offset"]),
+        st.sampled_from(["plain", "plain", "strided", "readonly", "offset", "reversed"]),
         st.booleans(),
     )
 
@@ -223,6 +225,11 @@ def _arr(values, layout="plain"):
         big = numpy.full(len(a) + 2, 0xDEADBEEF, dtype=numpy.uint32)
         big[1:-1] = a
         a = big[1:-1]
+    elif layout == "reversed":
+        # a descending buffer viewed backwards: strictly increasing, negative stride, and anything that walks the
+        # base buffer forwards from element 0 of the view runs off its end
+        base = numpy.ascontiguousarray(a[::-1])
+        a = base[::-1]
     elif layout == "readonly":
         a.setflags(write=False)
     return a
